@@ -273,7 +273,7 @@ def check_C13(tier, seed):
 T1_PROPS = {
     # pid: (coq target, blamed clauses, generator profiles, description)
     'C02': dict(target='Properties_C02', clauses=['C02', 'HARNESS', 'CRASH', 'C17'], profiles=['grow', 'churn', 'mixed', 'resize', 'locked']),
-    'C05': dict(target='Properties_C05', clauses=['C05'], profiles=['churn', 'resize', 'mixed', 'locked', 'grow']),
+    'C05': dict(target='Properties_C05', clauses=['C05'], profiles=['churn', 'resize', 'stream', 'mixed', 'locked', 'special', 'grow', 'stream']),
     'C09': dict(target='Properties_C09', clauses=['C09'], profiles=['locked', 'locked', 'mixed']),
     'C10': dict(target='Properties_C10', clauses=['C10'], profiles=['resize', 'resize', 'mixed', 'grow']),
     'C17': dict(target='Properties_C17', clauses=['C17'], profiles=['churn', 'grow', 'mixed']),
@@ -663,7 +663,7 @@ def check_C07(tier, seed):
 # ----------------------------------------------------------------------------- T2: concurrent properties
 T2_PROPS = {
     'C01': dict(target='Properties_C01', blame=('C01', 'C05', 'C03'), profiles=['mixed', 'resize', 'insert', 'mixed', 'locked', 'rmw']),
-    'C03': dict(target='Properties_C03', blame=('C01', 'C03'), profiles=['rmw', 'rmw', 'mixed']),
+    'C03': dict(target='Properties_C03', blame=('C01', 'C03'), profiles=['rmw', 'insert', 'rmw', 'mixed', 'insert']),
     'C04': dict(target='Properties_C04', blame=('C04',), profiles=['resize', 'locked', 'mixed', 'insert']),
     'C06': dict(target='Properties_C06', blame=('C06', 'C01', 'C03'), profiles=['locked']),
 }
@@ -681,6 +681,7 @@ def check_T2(pid, tier, seed):
     cfgs = t2.CONC_CFGS_QUICK if tier == 'quick' else t2.CONC_CFGS_THOROUGH
     bins = t2.build_conc(cfgs)
     n = 360 if tier == 'quick' else 12000
+    if pid == 'C03' and tier == 'quick': n = 240
     if broken: n *= 3
     keep = os.path.join(BUILD, 'cases_' + pid)
     jobs = []
@@ -696,7 +697,30 @@ def check_T2(pid, tier, seed):
         c = cfgs[i % len(cfgs)]
         sc = gen_conc.gen_conc(rng.getrandbits(48), c[0], c[1], profile=spec['profiles'][i % len(spec['profiles'])])
         jobs.append((bins[c], sc, 's%d_l%d' % c, keep, (i % 4 == 0)))
+    # systematic single-preemption sweeps over displacement programs (every scheduling point of the
+    # inserting thread, the other threads run to completion there)
+    nsweep = {'C01': 9, 'C03': 15, 'C04': 3, 'C06': 2}[pid] * (1 if tier == 'quick' else 12)
+    nsw = 0
+    for i in range(nsweep):
+        c = cfgs[i % len(cfgs)]
+        for sc in gen_conc.gen_sweep(rng.getrandbits(48), c[0], c[1]):
+            jobs.append((bins[c], sc, 'sweep_s%d_l%d' % c, keep, False)); nsw += 1
     res = t2.run_many(jobs)
+    # directed search: for runs whose trace is not a run of the model, schedules that preempt the
+    # offending thread just before its first unexpected event and let the others run
+    djobs = []
+    for r in res:
+        if not r.get('replayed', True):
+            for sc in r.get('directed', []):
+                cfgm = re.search(r'^cfg (\d+) (\d+)', sc, flags=re.M)
+                c = (int(cfgm.group(1)), int(cfgm.group(2)))
+                if c in bins:
+                    djobs.append((bins[c], sc, 'directed', keep, True))
+        if len(djobs) > 600:
+            break
+    dres = t2.run_many(djobs) if djobs else []
+    res_all = res
+    res = res + dres
     findings = load_findings()
     viol, known_hits, unreplayed, unconfirmed = [], {}, [], []
     for r in res:
@@ -741,6 +765,7 @@ def check_T2(pid, tier, seed):
                traces_validated_against_impl=len([r for r in res if r.get('replayed')]),
                events_replayed=sum(r.get('nevents', 0) for r in res), context_switches=sum(r.get('switches', 0) for r in res),
                linearizable_histories=len([r for r in res if r.get('linearizable')]), corpus_cases=ncorpus,
+               directed_schedules=len(dres), sweep_schedules=nsw,
                known_findings=sorted(known_hits.keys()), gen_changed=changed)
     write_evidence(pid, tier, seed, cov, time.time() - t0, violations, TRUSTED_BASE)
     if not violations: shutil.rmtree(keep, ignore_errors=True)
